@@ -288,7 +288,7 @@ theorem setComplete_fields (g : Graph) (x : Proxy) (m : String) :
   · rw [h.1]; exact ⟨rfl, rfl, rfl, rfl, rfl, rfl, rfl⟩
   · rw [h.2.2.1]; exact ⟨rfl, rfl, rfl, rfl, rfl, rfl, rfl⟩
 
-theorem upd_pre {g : Graph} {allow : Proxy → Bool} {s : State} {x y : Proxy} (h : Upd g allow s x y) :
+theorem upd_pre {g : Graph} {K : Kinds} {s : State} {x y : Proxy} (h : Upd g K s x y) :
     (y.pre = x.pre ∧ y.sui = x.sui) ∨
     (∃ a, justB s a = true ∧ y.pre = x.pre.map (·.satisfy a) ∧ y.sui = x.sui.map (·.satisfy a)) := by
   cases h with
@@ -310,7 +310,7 @@ theorem upd_pre {g : Graph} {allow : Proxy → Bool} {s : State} {x y : Proxy} (
   | unwait => exact Or.inl ⟨rfl, rfl⟩
   | _ => left; simp
 
-theorem upd_qr {g : Graph} {allow : Proxy → Bool} {s : State} {x y : Proxy} (h : Upd g allow s x y) :
+theorem upd_qr {g : Graph} {K : Kinds} {s : State} {x y : Proxy} (h : Upd g K s x y) :
     y.queued = false ∨ (y.queued = x.queued ∧ (y.runahead = x.runahead ∨ y.runahead = false)) ∨
     (x.isReadyToRun = true ∧ x.runahead = false ∧ y.runahead = false) := by
   cases h with
@@ -338,7 +338,7 @@ theorem upd_qr {g : Graph} {allow : Proxy → Bool} {s : State} {x y : Proxy} (h
     exact ⟨hq.2, hq.1.2, by simpa using hq.1.2⟩
   | _ => right; left; simp
 
-theorem upd_valid {g : Graph} {allow : Proxy → Bool} {s : State} {x y : Proxy} (h : Upd g allow s x y)
+theorem upd_valid {g : Graph} {K : Kinds} {s : State} {x y : Proxy} (h : Upd g K s x y)
     {C : Atom → Bool} (hC : ∀ a, justB s a = true → C a = true) (hv : Valid g C x) : Valid g C y := by
   obtain ⟨t, d, h1, h2, h3, h4, h5, h6⟩ := hv
   have hk := upd_key h
@@ -358,7 +358,7 @@ theorem isReady_prereqs {x : Proxy} (h : x.isReadyToRun = true) : x.prereqsSatis
 theorem prereqs_of_pre_eq {x y : Proxy} (h : y.pre = x.pre) : y.prereqsSatisfied = x.prereqsSatisfied := by
   unfold Proxy.prereqsSatisfied; rw [h]
 
-theorem upd_queued {g : Graph} {allow : Proxy → Bool} {s : State} {x y : Proxy} (h : Upd g allow s x y)
+theorem upd_queued {g : Graph} {K : Kinds} {s : State} {x y : Proxy} (h : Upd g K s x y)
     (hx : x.queued = true → x.prereqsSatisfied = true ∧ x.runahead = false) :
     y.queued = true → y.prereqsSatisfied = true ∧ y.runahead = false := by
   intro hq
@@ -430,8 +430,8 @@ theorem completedB_key {s : State} {a : Atom} (h : completedB s a = true) :
   · exact Or.inl ⟨z, hz, h1, h2⟩
   · exact Or.inr ⟨z, hz, h1, h2⟩
 
-theorem c01_act {g : Graph} {allow : Proxy → Bool} {s s' : State}
-    (hi : RInv g s) (hinv : C01Inv g s) (ha : Act g allow s s') : C01Inv g s' := by
+theorem c01_act {g : Graph} {K : Kinds} {s s' : State}
+    (hi : RInv g s) (hinv : C01Inv g s) (ha : Act g K s s') : C01Inv g s' := by
   have hC : ∀ a, completedB s a = true → completedB s' a = true := fun a h => completedB_act hi.nodup ha h
   have hJ : ∀ a, justB s a = true → completedB s' a = true := by
     intro a h
@@ -631,29 +631,177 @@ theorem envAll_noEnv (g : Graph) : ∀ (ops : List Op) (s : State), envAll noEnv
   | cons op ops ih => intro s; simp only [envAll, noEnv, Bool.true_and]; exact ih _
 
 /-- lifting of an invariant of the atomic actions to all states of all runs -/
-theorem run_inv_act {g : Graph} (hwf : g.wf = true) (allow : Proxy → Bool) (E : State → Op → Bool)
-    (hE : ∀ s op, E s op = true → (∀ x, allow x = true) ∨ opOK allow s op = true)
+theorem run_inv_act {g : Graph} (hwf : g.wf = true) (K : Kinds) (hs : K.sched = true) (hmsg : ∀ x, K.msg x = true)
+    (hlive : ∀ x, K.live x = true) (hret : K.retry = true) (hsui : K.sui = true)
+    (E : State → Op → Bool)
+    (hE : ∀ s op, E s op = true → (∀ x, K.allow x = true) ∨ opOK K.allow s op = true)
     (P : State → Prop) (h0 : P ({} : State))
-    (hact : ∀ s s', RInv g s → P s → Act g allow s s' → P s')
+    (hact : ∀ s s', RInv g s → P s → Act g K s s' → P s')
     (hclear : ∀ s, P s → P (clearOp s)) :
     ∀ (ops : List Op), envAll E g (init g) ops = true → ∀ s ∈ run g ops, RInv g s ∧ P s := by
   intro ops he s hm
   rw [run_eq_trace] at hm
-  have hstep : ∀ a b, Steps g allow a b → (RInv g a ∧ P a) → (RInv g b ∧ P b) := by
+  have hstep : ∀ a b, Steps g K a b → (RInv g a ∧ P a) → (RInv g b ∧ P b) := by
     intro a b hab hpa
     exact Steps.inv (fun st => RInv g st ∧ P st)
       (fun s s' h ha => ⟨rinv_act hwf h.1 ha, hact s s' h.1 h.2 ha⟩) hab hpa
   refine trace_inv g (fun st => RInv g st ∧ P st) E ?_ ops (init g) ?_ he s hm
   · intro st op hp hop
-    exact hstep _ _ (steps_step hwf hp.1 op (hE st op hop)) ⟨rinv_clearOp hp.1, hclear st hp.2⟩
-  · exact hstep _ _ (steps_init hwf) ⟨rinv_empty, h0⟩
+    exact hstep _ _ (steps_step hwf hs hmsg hlive hret hsui hp.1 op (hE st op hop)) ⟨rinv_clearOp hp.1, hclear st hp.2⟩
+  · exact hstep _ _ (steps_init hwf hs) ⟨rinv_empty, h0⟩
 
 theorem c01_clearOp {g : Graph} {s : State} (h : C01Inv g s) : C01Inv g (clearOp s) :=
   ⟨h.valid, h.queued, h.abs, (by intro l hl; cases hl), h.spPool, h.spHist⟩
 
 /-- the C01 invariants hold in every state of every run -/
 theorem c01_run {g : Graph} (hwf : g.wf = true) (ops : List Op) : ∀ s ∈ run g ops, RInv g s ∧ C01Inv g s :=
-  run_inv_act hwf (fun _ => true) noEnv (fun _ _ _ => Or.inl (fun _ => rfl)) (C01Inv g) (c01_empty g)
+  run_inv_act hwf Kinds.all rfl (fun _ => rfl) (fun _ => rfl) rfl rfl noEnv (fun _ _ _ => Or.inl (fun _ => rfl)) (C01Inv g) (c01_empty g)
     (fun _ _ hi hp ha => c01_act hi hp ha) (fun _ h => c01_clearOp h) ops (envAll_noEnv g ops _)
+
+
+/-! ### Launches are justified by what was completed before the operation -/
+
+/-- only scheduler-driven actions: no message-driven update -/
+def Kinds.schedOnly : Kinds := ⟨fun _ => true, fun _ => false, true, fun _ => true, true, true⟩
+
+/-- only message-driven actions: no release / queue / launch -/
+def Kinds.msgOnly : Kinds := ⟨fun _ => true, fun _ => true, false, fun _ => true, true, true⟩
+
+theorem upd_quiet_done {g : Graph} {K : Kinds} (hK : ∀ x, K.msg x = false) {s : State} {x y : Proxy}
+    (h : Upd g K s x y) : y.done = x.done := by
+  cases h with
+  | refl => rfl
+  | satisfy => rfl
+  | unwait => rfl
+  | release => simp
+  | queue => simp
+  | setc _ _ _ hm => rw [hK] at hm; cases hm
+  | running hm => rw [hK] at hm; cases hm
+  | succeeded hm => rw [hK] at hm; cases hm
+  | execRetry _ hm => rw [hK] at hm; cases hm
+  | failedFinal _ hm => rw [hK] at hm; cases hm
+  | subRetry _ _ hm => rw [hK] at hm; cases hm
+  | subFailedFinal _ _ hm => rw [hK] at hm; cases hm
+  | submitted _ hm => rw [hK] at hm; cases hm
+
+/-- without message-driven updates nothing new is recorded complete -/
+theorem quiet_act {g : Graph} {K : Kinds} (hK : ∀ x, K.msg x = false) {s s' : State} (ha : Act g K s s')
+    {a : Atom} (hc : completedB s' a = true) : completedB s a = true := by
+  rw [completedB_iff] at hc ⊢
+  have hput : ∀ (x y : Proxy), s.get? y.pt y.name = some x → y.pt = x.pt → y.name = x.name → y.done = x.done →
+      (∃ z ∈ (s.put y).pool, z.pt = a.pt ∧ z.name = a.task ∧ a.out ∈ z.done) →
+      ∃ z ∈ s.pool, z.pt = a.pt ∧ z.name = a.task ∧ a.out ∈ z.done := by
+    intro x y hg h1 h2 h3 ⟨z, hz, hzp, hzn, hzo⟩
+    rcases mem_put hz with rfl | hz
+    · exact ⟨x, (get?_some_spec hg).1, by rw [← h1]; exact hzp, by rw [← h2]; exact hzn, by rw [← h3]; exact hzo⟩
+    · exact ⟨z, hz, hzp, hzn, hzo⟩
+  cases ha with
+  | frame hp hs => rw [hp, hs.1] at hc; exact hc
+  | absAdd a' hc' hp hh ha hl => rw [hp, hh] at hc; exact hc
+  | upd x y hg hu hp hs =>
+    rw [hp, hs.1] at hc
+    rcases hc with hc | hc
+    · exact Or.inl (hput x y hg (upd_key hu).1 (upd_key hu).2 (upd_quiet_done hK hu) hc)
+    · exact Or.inr hc
+  | launch x hg hq hp hh ha hl =>
+    rw [hp, hh] at hc
+    rcases hc with hc | hc
+    · exact Or.inl (hput x (launchOf x) (by simpa using hg) (by simp) (by simp) (by simp) hc)
+    · exact Or.inr hc
+  | spawn y0 y hg hsp hy hw hp hs =>
+    rw [hp, hs.1] at hc
+    rcases hc with ⟨z, hz, hzp, hzn, hzo⟩ | hc
+    · rcases List.mem_append.mp hz with hz | hz
+      · exact Or.inl ⟨z, hz, hzp, hzn, hzo⟩
+      · simp only [List.mem_singleton] at hz
+        subst hz
+        obtain ⟨x0, hm, hcs⟩ := spawned_spec hsp hy
+        obtain ⟨t, d, _, _, _, _, hx0⟩ := mkProxy_spec hm
+        rcases hcs with ⟨_, _, hcs⟩ | ⟨hr, hl, _, hcs⟩
+        · simp only [Proxy.core, Prod.mk.injEq] at hcs
+          rw [hcs.2.2.2.2.2.2.2.2.1, hx0] at hzo
+          cases hzo
+        · simp only [Proxy.core, Prod.mk.injEq] at hcs
+          rw [hcs.2.2.2.2.2.2.2.2.1] at hzo
+          have hm' := lastHist_mem hl
+          exact Or.inr ⟨hr, hm'.1, by rw [hm'.2.1]; exact hzp, by rw [hm'.2.2]; exact hzn, hzo⟩
+    · exact Or.inr hc
+  | remove x hg hp hh ha hl =>
+    rw [hp, hh] at hc
+    rcases hc with ⟨z, hz, h⟩ | ⟨h, hm, hh'⟩
+    · exact Or.inl ⟨z, (List.mem_filter.mp hz).1, h⟩
+    · rcases List.mem_append.mp hm with hm | hm
+      · exact Or.inr ⟨h, hm, hh'⟩
+      · simp only [List.mem_singleton] at hm
+        subst hm
+        exact Or.inl ⟨x, (get?_some_spec hg).1, hh'⟩
+  | clearUpd hp hs =>
+    rw [hp, hs.1] at hc
+    rcases hc with ⟨z, hz, h⟩ | hc
+    · obtain ⟨w, hw, rfl⟩ := List.mem_map.mp hz
+      exact Or.inl ⟨w, hw, h⟩
+    · exact Or.inr hc
+
+theorem quiet_steps {g : Graph} {K : Kinds} (hK : ∀ x, K.msg x = false) {s s' : State} (h : Steps g K s s')
+    {a : Atom} (hc : completedB s' a = true) : completedB s a = true := by
+  induction h with
+  | refl => exact hc
+  | tail _ hact ih => exact ih (quiet_act hK hact hc)
+
+/-- without scheduler-driven actions nothing is launched -/
+theorem nolaunch_steps {g : Graph} {K : Kinds} (hK : K.sched = false) {s s' : State} (h : Steps g K s s') :
+    s'.launched = s.launched := by
+  induction h with
+  | refl => rfl
+  | tail _ hact ih =>
+    rw [← ih]
+    cases hact with
+    | frame hp hs => exact hs.2.2
+    | upd x y hg hu hp hs => exact hs.2.2
+    | launch x hg hq hp hh ha hl hs => rw [hK] at hs; cases hs
+    | spawn y0 y hg hsp hy hw hp hs => exact hs.2.2
+    | remove x hg hp hh ha hl => exact hl
+    | absAdd a hc hp hh ha hl => exact hl
+    | clearUpd hp hs => exact hs.2.2
+
+theorem c01_steps {g : Graph} (hwf : g.wf = true) {K : Kinds} {s s' : State} (h : Steps g K s s')
+    (hi : RInv g s) (hinv : C01Inv g s) : C01Inv g s' :=
+  (Steps.inv (fun st => RInv g st ∧ C01Inv g st)
+    (fun _ _ hp ha => ⟨rinv_act hwf hp.1 ha, c01_act hp.1 hp.2 ha⟩) h ⟨hi, hinv⟩).2
+
+/-- **launches are justified by the state before the operation**: whatever the operation, every launch it
+records is justified (`LaunchOK`) by the outputs recorded complete *before* it -/
+theorem launch_justified_before {g : Graph} (hwf : g.wf = true) {s : State} (hi : RInv g s) (hinv : C01Inv g s)
+    (op : Op) : ∀ l ∈ (step g s op).launched, LaunchOK g (completedB s) l := by
+  have hc := rinv_clearOp hi
+  have hcinv := c01_clearOp hinv
+  cases op with
+  | msg p n sn text => intro l hl; cases hl
+  | subres p n ok sn =>
+    intro l hl
+    have hst : Steps g Kinds.msgOnly (clearOp s) (step g s (.subres p n ok sn)) :=
+      steps_processMessage hwf 4 Kinds.msgOnly _ _ _ _ _ _ hc (Or.inl rfl) (fun _ _ _ => rfl) (fun _ => Or.inl (fun _ => rfl))
+        (fun _ => rfl) (fun _ _ _ => rfl)
+    rw [nolaunch_steps rfl hst] at hl
+    cases hl
+  | loop =>
+    intro l hl
+    have hstep : step g s .loop = mainLoop g (clearOp s) := rfl
+    rw [hstep, mainLoop_eq] at hl
+    split at hl
+    · cases hl
+    · obtain ⟨h1, hq1⟩ := steps_preSubmit (K := Kinds.schedOnly) hwf rfl hc
+      have hinv1 := c01_steps hwf h1 hc hcinv
+      have hl1 : l ∈ (preSubmit g (clearOp s)).1.launched := by
+        split at hl
+        · exact hl
+        · have h2 : Steps g Kinds.msgOnly (preSubmit g (clearOp s)).1
+              (finishLoop g (processQueue g (preSubmit g (clearOp s)).1)) :=
+            steps_postSubmit hwf (fun _ => True) (fun _ _ _ _ _ => trivial) (fun _ => rfl) rfl (Or.inl rfl)
+              (rinv_steps hwf h1 hc)
+              trivial (fun _ _ _ _ _ => Or.inl (fun _ => rfl)) (Or.inl (fun _ => rfl))
+          rw [nolaunch_steps rfl h2] at hl
+          exact hl
+      exact (hinv1.launched l hl1).mono (fun a ha => quiet_steps (fun _ => rfl) h1 ha)
 
 end CylcModel.Sched
